@@ -55,6 +55,13 @@ fn apply_size(c: &mut Cfg, t: Tok, sz: Sz) {
     }
 }
 
+/// the same configuration on the crossed channel-id scheme: the counterparty end of local
+/// channel-5 is called channel-15 and that of local channel-15 is called channel-5
+fn crossed(mut c: Cfg) -> Cfg {
+    c.first_chan = 2;
+    c
+}
+
 /// one native token, two channels
 fn native_cfg(name: &str, sz: Sz) -> Cfg {
     let mut c = Cfg::base(name);
@@ -137,7 +144,8 @@ fn v1_cfg(name: &str, version: &'static str, thorough: bool) -> Cfg {
         version,
         v1: true,
         counted: vec![(T1, 2)],
-        inflight: vec![],
+        // a send still in flight at migration time: escrowed, but not yet counted by the old logic
+        inflight: vec![(A, T1, 1)],
     });
     c.first_migrate = vec![None, Some(2)];
     c.funds = vec![(A, T1, 1), (B, T1, 1)];
@@ -207,7 +215,10 @@ fn configs(prop: &str, thorough: bool) -> Vec<(Cfg, Option<usize>)> {
                 v.push(cw20_cfg("C11/cw20-listed-limit1/2ch", Some(1), QUICK));
                 v.push(default_cfg("C11/cw20-T2-under-default-limit/2ch", false));
                 v.push(pair_cfg("C11/native+cw20/2ch", false));
+                v.push(crossed(native_cfg("C11/native/2ch-crossed-ids", QUICK)));
             } else {
+                v.push(crossed(native_cfg("C11/native/2ch-crossed-ids/faults2", DEEP)));
+                v.push(crossed(cw20_cfg("C11/cw20-listed-limit1/2ch-crossed-ids/faults2", Some(1), DEEP)));
                 v.push(native_cfg("C11/native/2ch/faults2", DEEP));
                 v.push(native_cfg("C11/native/2ch/funds4-inflight3", WIDE));
                 v.push(cw20_cfg("C11/cw20-listed-limit1/2ch/faults2", Some(1), DEEP));
@@ -232,7 +243,10 @@ fn configs(prop: &str, thorough: bool) -> Vec<(Cfg, Option<usize>)> {
                 v.push(cw20_cfg("C12/fresh/cw20/listed-limit1", Some(1), QUICK));
                 v.push(default_cfg("C12/fresh/cw20/T1-listed+T2-under-default", false));
                 v.push(pair_cfg("C12/fresh/native+cw20", false));
+                v.push(crossed(native_cfg("C12/fresh/native/crossed-channel-ids", QUICK)));
             } else {
+                v.push(crossed(native_cfg("C12/fresh/native/crossed-channel-ids/faults2", DEEP)));
+                v.push(crossed(cw20_cfg("C12/fresh/cw20/listed-limit1/crossed-channel-ids/faults2", Some(1), DEEP)));
                 v.push(native_cfg("C12/fresh/native/no-allowlist-no-default/faults2", DEEP));
                 v.push(native_cfg("C12/fresh/native/no-allowlist-no-default/funds4-inflight3", WIDE));
                 v.push(cw20_cfg("C12/fresh/cw20/listed-limit1/faults2", Some(1), DEEP));
@@ -336,12 +350,11 @@ fn configs(prop: &str, thorough: bool) -> Vec<(Cfg, Option<usize>)> {
                     c.max_inflight = 2;
                     c.gov_actors = vec![G, G2, X];
                     c.allow_tokens = vec![0, 1];
-                    c.allow_limits = vec![None, Some(1), Some(2), Some(3)];
+                    c.allow_limits = vec![None, Some(0), Some(1), Some(3)];
                     c.admin_targets = vec![G, G2];
-                    c.migrate_limits = vec![None, Some(1), Some(3)];
+                    c.migrate_limits = vec![None, Some(0), Some(3)];
                     if thorough {
-                        // two channels, both users send, one payout/refund fault per history
-                        c.channels = 2;
+                        // both users send, payouts to either, one payout/refund fault per history
                         c.funds = vec![(A, T1, 1), (A, T2, 1), (A, N0, 1), (B, T2, 1)];
                         c.senders = vec![A, B];
                         c.receivers = vec![Rcv::User(B), Rcv::User(A)];
